@@ -855,6 +855,16 @@ def apply_mutation(res, world, rng, frames, target, mut):
     return True, new
 
 
+def dtype_conflict(labels, kinds, units):
+    """some column's dtype cannot go with the unit it would keep (special units are tied to their dtype)"""
+    for l in labels:
+        if l in units and kinds.get(l) in KIND_DEFAULT:
+            base = KIND_DEFAULT[kinds[l]]
+            if (base in SPECIAL and base != units[l]) or (base not in SPECIAL and units[l] in SPECIAL):
+                return True
+    return False
+
+
 def check_result(res, world, name, safe, sources, pre, R, exc, ws_outer, calls):
     """clauses of C05 about one operation; returns the result frame if it is a table frame"""
     import pandas as pd
@@ -862,7 +872,7 @@ def check_result(res, world, name, safe, sources, pre, R, exc, ws_outer, calls):
     from pdtable.table_metadata import ColumnUnitException, InvalidNamingError
     # sources carrying metadata; pandas.concat drops operands of shape (0, 0) before anything else happens
     src_info = [(s, p) for s, p in zip(sources, pre)
-                if p is not None and not (len(sources) > 1 and sum(s.shape) == 0)]
+                if p is not None and not (name.startswith("concat") and sum(s.shape) == 0)]
     # --- degrade path of __finalize__: plain DataFrame exactly, with the warning
     for c in calls:
         if c["exc"] is None and c["res"] != "table":
@@ -915,12 +925,8 @@ def check_result(res, world, name, safe, sources, pre, R, exc, ws_outer, calls):
                     cause = "duplicate labels"
                 elif isinstance(exc, ValueError) and any(k not in KIND_DEFAULT for k in kinds.values()):
                     cause = "dtype kind without unit"
-                elif isinstance(exc, ColumnUnitException):
-                    for l in labels:
-                        if l in units and kinds[l] in KIND_DEFAULT:
-                            base = KIND_DEFAULT[kinds[l]]
-                            if (base in SPECIAL and base != units[l]) or (base not in SPECIAL and units[l] in SPECIAL):
-                                cause = "dtype against kept unit"
+                elif isinstance(exc, ColumnUnitException) and dtype_conflict(labels, kinds, units):
+                    cause = "dtype against kept unit"
             else:
                 cause = "raised by pandas before any __finalize__" if not isinstance(
                     exc, (ColumnUnitException, InvalidNamingError, InvalidTableCombineError)) else None
@@ -962,7 +968,22 @@ def check_result(res, world, name, safe, sources, pre, R, exc, ws_outer, calls):
         return None
     p = pub(world, R)
     if "exc" in p:
-        res.fail("result table frame cannot be consulted", p, None, key="result_unreadable")
+        # pandas may change a column after __finalize__ ran (assign copies first, then sets the column): the
+        # refusal then comes with the first consultation; it needs the same kind of cause as an immediate one
+        units0 = {}
+        for s, sp in src_info:
+            for l, u, _, _ in sp["cols"]:
+                units0.setdefault(l, u)
+        for l, c in R._table_data.columns.items():
+            units0.setdefault(tok(l), c.unit)
+        labels = [tok(l) for l in R.columns]
+        kinds0 = {tok(l): d.kind for l, d in zip(R.columns, R.dtypes)}
+        if p["exc"] == "ColumnUnitException" and dtype_conflict(labels, kinds0, units0):
+            res.counts.append("refusal-on-first-access:dtype against kept unit")
+        elif p["exc"] == "ValueError" and any(k not in KIND_DEFAULT for k in kinds0.values()):
+            res.counts.append("refusal-on-first-access:dtype kind without unit")
+        else:
+            res.fail("result table frame cannot be consulted", p, None, key="result_unreadable")
         return None
     first = src_info[0][1]
     if p["name"] != first["name"]:
